@@ -13,6 +13,7 @@ import (
 	"regexp"
 	"slices"
 	"sort"
+	"strings"
 	"sync"
 	"testing"
 	"testing/synctest"
@@ -74,6 +75,43 @@ func (a full) equal(b full) bool {
 
 	return a.Ver == b.Ver && a.Owner == b.Owner && a.Phase == b.Phase && slices.Equal(fa, fb) && maps.Equal(a.Labels, b.Labels) && maps.Equal(a.Annot, b.Annot) &&
 		a.Token == b.Token && a.Val == b.Val && maps.Equal(a.M, b.M) && slices.Equal(a.S, b.S)
+}
+
+// exact is equal with the finalizers compared in order: for objects nobody was supposed to touch (an object in a reader's hands, one
+// version of a stored resource) even the order must stay what it was.
+func (a full) exact(b full) bool { return a.equal(b) && slices.Equal(a.Fins, b.Fins) }
+
+// readOnly uses the comparing / printing part of the public API on an object the caller holds, against a variant of it whose
+// finalizers are the same set in another order or differ in one element: none of this may change either object.
+func readOnly(rng *rand.Rand, o resource.Resource) string {
+	v := o.DeepCopy()
+	fins := v.Metadata().Finalizers()
+
+	if n := len(*fins); n > 0 {
+		f := (*fins)[rng.IntN(n)]
+		fins.Remove(f)
+
+		if rng.IntN(2) == 0 {
+			fins.Add(f) // same set, other order
+		} else {
+			fins.Add("other") // same length, other set
+		}
+	}
+
+	before := snapshot(v)
+
+	_ = resource.Equal(o, v)
+	_ = resource.Equal(v, o)
+	_ = o.Metadata().Equal(*v.Metadata())
+	_ = o.Metadata().String()
+	_, _ = resource.MarshalYAML(o)
+	_ = o.Metadata().Finalizers().Has("other")
+
+	if !snapshot(v).exact(before) {
+		return "the compared variant was changed"
+	}
+
+	return ""
 }
 
 // scribble mutates an object the caller holds through the public metadata/spec API.
@@ -408,7 +446,8 @@ func sequence(c *vk.C, rng *rand.Rand, k int) {
 		return
 	}
 
-	shadow := map[string]full{} // what the store must contain
+	shadow := map[string]full{}    // what the store must contain
+	orderSeen := map[string]full{} // id@version -> first read of that version (destroy resets: versions restart)
 	ids := []string{"x", "y"}
 
 	var (
@@ -452,8 +491,10 @@ func sequence(c *vk.C, rng *rand.Rand, k int) {
 		case 0, 1:
 			r := res.NewA("ns", id)
 			mkSpec(r)
-			r.Metadata().Finalizers().Add("f0")
-			r.Metadata().Finalizers().Add("f1")
+			// 2-4 finalizers, not in sorted order
+			for _, f := range [][]string{{"f0", "f1"}, {"f3", "f0", "f1"}, {"f1", "f4", "f0", "f3"}, {"f4", "f1"}}[rng.IntN(4)] {
+				r.Metadata().Finalizers().Add(f)
+			}
 
 			err := st.Create(ctx, r)
 			trace = append(trace, fmt.Sprintf("create %s err=%v", id, err != nil))
@@ -575,6 +616,13 @@ func sequence(c *vk.C, rng *rand.Rand, k int) {
 
 			if err := st.Destroy(ctx, ptr); err == nil {
 				delete(shadow, id)
+
+				for vkey := range orderSeen {
+					if strings.HasPrefix(vkey, id+"@") {
+						delete(orderSeen, vkey)
+					}
+				}
+
 				trace = append(trace, "destroy "+id)
 			}
 		}
@@ -633,6 +681,30 @@ func sequence(c *vk.C, rng *rand.Rand, k int) {
 			}
 		}
 
+		// the caller compares / prints what it holds: reading must not change anything, neither the object nor (below) the store
+		for oi, o := range heldObjs {
+			if rng.IntN(3) == 0 {
+				before := snapshot(o)
+
+				var what string
+
+				p, _ := vk.Try(func() { what = readOnly(rng, o) })
+				if p != nil {
+					fail("metadata-api-panicked", map[string]any{"panic": fmt.Sprint(p), "api": "Equal/String/MarshalYAML"})
+
+					return
+				}
+
+				if now := snapshot(o); what != "" || !now.exact(before) {
+					fail("object-changed-by-read-only-api", map[string]any{"held_object": oi, "before": before, "now": now, "note": what})
+
+					return
+				}
+
+				c.Count("read_only_api_uses", 1)
+			}
+		}
+
 		// the caller scribbles on everything it holds
 		var did []string
 
@@ -673,6 +745,18 @@ func sequence(c *vk.C, rng *rand.Rand, k int) {
 				fail("store-changed-by-caller-mutation", map[string]any{"id": id, "read": "Get", "store_now": snapshot(got), "expected": want})
 
 				return
+			case err == nil:
+				// one version of a stored resource always reads the same, finalizer order included
+				now := snapshot(got)
+				vkey := id + "@" + now.Ver
+
+				if first, seen := orderSeen[vkey]; seen && !now.exact(first) {
+					fail("store-changed-by-caller-mutation", map[string]any{"id": id, "read": "Get", "store_now": now, "same_version_read_earlier": first, "note": "finalizer order of one stored version changed"})
+
+					return
+				}
+
+				orderSeen[vkey] = now
 			}
 		}
 
@@ -696,7 +780,7 @@ func sequence(c *vk.C, rng *rand.Rand, k int) {
 		for i, h := range replica {
 			c.Count("replica_comparisons", 1)
 
-			if !snapshot(h.r).equal(h.snap) {
+			if !snapshot(h.r).exact(h.snap) {
 				fail("watcher-object-changed-by-caller-mutation", map[string]any{"event_object": i, "now": snapshot(h.r), "at_delivery": h.snap})
 
 				return
